@@ -60,7 +60,8 @@ func (ds *dataStore) getLiveStoreKey(keyName string) (sk *storeKey, exists bool)
 }
 
 func (ds *dataStore) hasChangedUnlocked(keyName string, id uint64) bool {
-	sk, exists := ds.getStoreKey(keyName)
+	// a key whose deadline has passed is gone, which is a change if it was there when watched
+	sk, exists := ds.getLiveStoreKey(keyName)
 	if !exists {
 		return id != 0
 	} else {
